@@ -19,17 +19,17 @@ type Violation struct {
 
 // Result is what every driver reports.
 type Result struct {
-	Behaviours   int              `json:"behaviours"`
-	Steps        int              `json:"steps"`
-	States       int              `json:"states,omitempty"`
-	Transitions  int              `json:"transitions,omitempty"`
-	Distinct     int              `json:"distinct"`
-	Drift        int              `json:"drift"`
-	DriftSamples []any            `json:"drift_samples,omitempty"`
-	Violations   []Violation      `json:"violations"`
-	ViolCount    int              `json:"viol_count"`
-	Samples      []any            `json:"samples"`
-	Extra        map[string]any   `json:"extra,omitempty"`
+	Behaviours   int            `json:"behaviours"`
+	Steps        int            `json:"steps"`
+	States       int            `json:"states,omitempty"`
+	Transitions  int            `json:"transitions,omitempty"`
+	Distinct     int            `json:"distinct"`
+	Drift        int            `json:"drift"`
+	DriftSamples []any          `json:"drift_samples,omitempty"`
+	Violations   []Violation    `json:"violations"`
+	ViolCount    int            `json:"viol_count"`
+	Samples      []any          `json:"samples"`
+	Extra        map[string]any `json:"extra,omitempty"`
 	sigSeen      map[string]bool
 }
 
